@@ -549,7 +549,10 @@ Definition patv (a n : N) : value :=
   map (fun i => (a + 7 * N.of_nat i) mod 256) (seq 0 (N.to_nat n)).
 
 Definition kix (T : tables) (k : key) : N := index_of keyb k (t_keys T).
+
 Definition vix (T : tables) (v : value) : N := index_of value_eqb v (t_vals T).
+(* what a read returned, as the harness reports it: nf is "nothing", bytes of no known value nf+2 *)
+Definition got_code (i : N) : N := if i =? nf then nf + 2 else i.
 Definition tdist (T : tables) (k : key) : N := nthN (t_dists T) (kix T k) 0.
 Definition thash (T : tables) (v : value) : N := nthN (t_hashes T) (vix T v) 0.
 
@@ -602,7 +605,7 @@ Definition abs_state (T : tables) (E : env) (s : state) : dump :=
                            end)) (files s)))
     (map (notif_code T) (chan s))
     (len (tasks s)) (range s) (payments s) (started s) (metrics s)
-    (map (fun k => match get E s k with Some v => vix T v | None => nf end) (t_keys T)).
+    (map (fun k => match get E s k with Some v => got_code (vix T v) | None => nf end) (t_keys T)).
 
 Definition pairN_eqb (a b : N * N) : bool := (fst a =? fst b) && (snd a =? snd b).
 Definition lpair_eqb := list_eqb pairN_eqb.
@@ -649,7 +652,7 @@ Definition out_eqb (T : tables) (m : out) (j : iout) : bool :=
   | UPut a, JPut b => Bool.eqb a b
   | UPutLocal c f, JPutLocal c' f' =>
       (c =? c') && option_eqb N.eqb (match f with Some k => Some (kix T k) | None => None end) f'
-  | UGet v, JGet i => (match v with Some x => vix T x | None => nf end) =? i
+  | UGet v, JGet i => (match v with Some x => got_code (vix T x) | None => nf end) =? i
   | UQuote a b c d, JQuote a' b' c' d' => (a =? a') && (b =? b') && (c =? c') && Bool.eqb d d'
   | _, _ => false
   end.
